@@ -49,9 +49,14 @@ def _gen_alias(rng, classes, depth=0):
         return ["G", "list", _gen_alias(rng, classes, depth + 1)]
     if r < 0.85:
         return ["G", "dict", _gen_alias(rng, classes, depth + 1), _gen_alias(rng, classes, depth + 1)]
-    if r < 0.93:
+    if r < 0.90:
         return ["G", "Sequence", _gen_alias(rng, classes, depth + 1)]
+    if r < 0.96:
+        return ["G", "tuple", *[_gen_alias(rng, classes, depth + 1) for _ in range(rng.choice([1, 2, 2, 3]))]]
     return ["G", "set", _gen_alias(rng, classes, depth + 1)]
+
+
+SPECIAL = ("Shape", "HasFly", "Hashable")
 
 
 def _gen_param(rng, classes, p_type):
@@ -60,12 +65,18 @@ def _gen_param(rng, classes, p_type):
         return ["Ty", _gen_alias(rng, classes)]
     if r < p_type + 0.1:
         return "type"
-    return rng.choice(["object", "object", "int", "str", rng.choice(classes)])
+    # ordinary parameters: plain classes only (whether a *class object* is an instance of a structural protocol
+    # or of an ABC such as Hashable is a question about metaclasses the statement does not address)
+    return rng.choice(["object", "object", "int", "str", rng.choice([c for c in classes if c not in SPECIAL])])
 
 
 def gen_case(rng, params, idx):
-    hier = gen.gen_hierarchy(rng, rng.randint(2, 5), attrs=False)
-    classes = [s["name"] for s in hier] + ["int", "bool", "object", "str"]
+    hier = gen.gen_hierarchy(rng, rng.randint(2, 5), attrs=True)
+    for s_ in hier:
+        if rng.random() < 0.25:
+            s_["ordhook"] = True        # a user metaclass
+    # classes whose metaclass is not `type` itself (ABCs, protocols) are passed around as arguments too
+    classes = [s["name"] for s in hier] + ["int", "bool", "object", "str", "Shape", "HasFly", "Hashable"]
     p0 = rng.choice([0.0, 0.75, 0.75, 0.75])
     p1 = rng.choice([0.0, 0.0, 0.0, 0.6])
     methods = []
@@ -102,7 +113,7 @@ def _param_accepts(ptx, env, vx, val):
     if isinstance(ptx, str) and ptx != "type":
         C = env.cls(ptx)
         if _is_passed(vx):
-            return C is object
+            return C is object      # a passed type is an object; it is not an instance of any other plain class
         return isinstance(val, C)
     if not _is_passed(vx):
         return False
